@@ -98,7 +98,7 @@ impl FixtureDatabase {
 @*/
 
 /*@ extract src/fixtures/resolver.rs detect_fixture_cycles
-@tags C07 C16
+@tags C07 C16 C19
 @recv mut
 @ret r
 @sig
@@ -136,7 +136,7 @@ impl FixtureDatabase {
 /*@ extract src/fixtures/mod.rs evict_cache_if_needed
 @tags C07
 @recv mut
-@closure 1 |entry: RefMulti<'_, PathBuf, Arc<String>>| -> (p: PathBuf) ensures pbv(&p) == pbv(entry.k)
+@closure map:1 |entry: RefMulti<'_, PathBuf, Arc<String>>| -> (p: PathBuf) ensures pbv(&p) == pbv(entry.k)
 @sig
     ensures
         // eviction only ever drops cached data: the index and the version stay, cached texts only shrink
